@@ -17,6 +17,7 @@ import LfsModel.CrashExec
 import LfsModel.Hooks
 import LfsModel.Track
 import LfsModel.PushModel
+import LfsModel.PrePush
 import LfsModel.Gen
 import LfsModel.GenApi
 import LfsModel.ApiReq
@@ -361,6 +362,14 @@ def c03 : List String → String
     | some cached, some actual =>
       String.intercalate "," (sortStr ((PushM.excluded cached actual).map toString))
     | _, _ => "bad-op"
+  | ["prepush", inp] => match unhex inp with
+    | some b =>
+      -- bufio.ScanLines: split at LF, one trailing CR dropped (TrimSpace would drop it anyway)
+      let lines := (b.splitOn 10)
+      let us := PrePush.parse lines
+      if us.isEmpty then "-" else
+      String.intercalate ";" (us.map fun u => s!"{hex u.lref}/{hex u.lsha}/{hex u.rref}/{hex u.rsha}")
+    | none => "bad-op"
   | _ => "bad-op"
 
 /-! ### C18 -/
